@@ -266,6 +266,34 @@ fn alloc_json<'tcx>(
       }
       Some(read_int(&bytes[off..off + esz], true).to_string())
     }
+    ty::Ref(_, inner, _) if inner.is_str() || matches!(inner.kind(), ty::Slice(e) if *e == tcx.types.u8) => {
+      // a fat pointer stored inside an allocation (e.g. a promoted `&BROTLI` where BROTLI: &str)
+      if off + 16 > bytes.len() {
+        return None;
+      }
+      let mut target = None;
+      for (o, prov) in alloc.provenance().ptrs().iter() {
+        if o.bytes() as usize == off {
+          target = Some(prov.alloc_id());
+        }
+      }
+      let aid = target?;
+      let addend = uint_str(&bytes[off..off + 8]).parse::<usize>().ok()?;
+      let len = uint_str(&bytes[off + 8..off + 16]).parse::<usize>().ok()?;
+      if let Some(mir::interpret::GlobalAlloc::Memory(a)) = tcx.try_get_global_alloc(aid) {
+        let a = a.inner();
+        let tb = a.inspect_with_uninit_and_ptr_outside_interpreter(0..a.len());
+        if addend + len > tb.len() {
+          return None;
+        }
+        let sl = &tb[addend..addend + len];
+        if inner.is_str() {
+          return Some(format!("{{\"s\":{}}}", esc(&String::from_utf8_lossy(sl))));
+        }
+        return Some(format!("{{\"b\":{}}}", join(sl.iter().map(|x| x.to_string()).collect())));
+      }
+      None
+    }
     ty::Adt(adt, _) if adt.is_struct() => {
       // single-field newtype over an integer (Sat, Rune, Height, ...)
       let v = adt.non_enum_variant();
@@ -333,7 +361,9 @@ fn place_json<'tcx>(tcx: TyCtxt<'tcx>, body: &mir::Body<'tcx>, p: &mir::Place<'t
               }
             }
           }
-          ty::Closure(did, _) | ty::Coroutine(did, _) | ty::CoroutineClosure(did, _) => {
+          ty::Closure(did, _) | ty::Coroutine(did, _) | ty::CoroutineClosure(did, _)
+            if pty.variant_index.is_none() =>
+          {
             if let Some(ldid) = did.as_local() {
               let ups = tcx.closure_captures(ldid);
               if f.as_usize() < ups.len() {
